@@ -53,6 +53,47 @@ fn esc(s: &str) -> String {
     out
 }
 
+/// `Variant("payload")` as Rust's derived Debug prints a one-field tuple variant holding a String:
+/// the variant name and the payload with the Debug escapes of `str` undone
+fn split_debug(d: &str) -> (String, String) {
+    let open = match d.find('(') {
+        Some(i) => i,
+        None => return (d.to_string(), String::new()),
+    };
+    let variant = d[..open].to_string();
+    let inner = &d[open + 1..d.len().saturating_sub(1)];
+    let inner = inner.strip_prefix('"').and_then(|x| x.strip_suffix('"')).unwrap_or(inner);
+    let mut out = String::new();
+    let mut it = inner.chars().peekable();
+    while let Some(c) = it.next() {
+        if c != '\\' {
+            out.push(c);
+            continue;
+        }
+        match it.next() {
+            Some('n') => out.push('\n'),
+            Some('r') => out.push('\r'),
+            Some('t') => out.push('\t'),
+            Some('0') => out.push('\0'),
+            Some('u') => {
+                let mut hex = String::new();
+                it.next();
+                while let Some(&h) = it.peek() {
+                    it.next();
+                    if h == '}' {
+                        break;
+                    }
+                    hex.push(h);
+                }
+                out.push(u32::from_str_radix(&hex, 16).ok().and_then(char::from_u32).unwrap_or('?'));
+            }
+            Some(o) => out.push(o),
+            None => {}
+        }
+    }
+    (variant, out)
+}
+
 fn ser_cmp<T>(c: &Comparison<T>, f: impl Fn(&T) -> String) -> String {
     match c {
         Comparison::GreaterThan(v) => format!("Gt {}", f(v)),
@@ -592,7 +633,10 @@ fn obs_compile(e: &Expression, o: &RunOptions, mdts: &[String], with_map_between
     for _attempt in 0..5 {
         let t0 = now();
         let r = catch_unwind(AssertUnwindSafe(|| match compile(e, o) {
-            Err(err) => format!("CERR {}", esc(&err.to_string())),
+            Err(err) => {
+                let (variant, payload) = split_debug(&format!("{:?}", err));
+                format!("CERR {} {} {}", variant, esc(&payload).replace(' ', "\\x20;"), esc(&err.to_string()))
+            }
             Ok(c) => {
                 let mut s = String::new();
                 let m0 = ser_iomap(&c.io_map());
